@@ -680,6 +680,82 @@ impl Family for FilesThroughBinary {
     }
 }
 
+
+// ---------------------------------------------------------------------------------------------------------------
+// Cycles whose members also break (or skirt) other rules, next to every kind of user: validators that walk through
+// types (key rules, compactness, ...) rely on the cycle check having run and having seen THESE members too.
+
+pub struct CyclesWithUsers;
+const CW_KINDS: [&str; 4] = ["struct", "compact struct", "enum", "compact enum"];
+const CW_DECOR: [&str; 9] = ["f: {T}", "f: {T}?", "tag(1) f: {T}", "tag(1) f: {T}?", "f: Sequence<{T}>", "f: Dictionary<{T}, int32>", "f: Dictionary<int32, {T}>", "tag(2) f: Result<{T}, {T}>", "[deprecated] f: {T}"];
+const CW_USERS: [&str; 8] = [
+    "",
+    "struct U { d: Dictionary<N0, string> }",
+    "struct U { d: Dictionary<string, N0> s: Sequence<N0?> }",
+    "typealias A = Dictionary<N0, N0>\nstruct U { a: A? }",
+    "compact struct U { n: N0 }\nstruct V { d: Dictionary<U, bool> }",
+    "interface I { op(k: Dictionary<N0, bool>) -> Result<N0, N0> }",
+    "enum E { X(tag(1) k: Dictionary<N0, int32>?) }",
+    "unchecked enum E : N0 { X }",
+];
+impl Family for CyclesWithUsers {
+    fn name(&self) -> String {
+        format!("cycles-with-users/1- and 2-node containment cycles x {} kinds x {} member forms (tagged, optional, wrapped, deprecated) x {} users of the cyclic type (dictionary key, compact container, alias, operation, enumerator field, underlying type) x 1-2 files", CW_KINDS.len(), CW_DECOR.len(), CW_USERS.len())
+    }
+    fn len(&self) -> u64 {
+        (2 * CW_KINDS.len() * CW_KINDS.len() * CW_DECOR.len() * CW_USERS.len() * 2) as u64
+    }
+    fn describe(&self, idx: u64) -> Value {
+        json!({"files": Self::texts(idx)})
+    }
+    fn run(&self, idx: u64) -> CaseOut {
+        let texts = Self::texts(idx);
+        let mut out = CaseOut::new(hash_str(&texts.join("\u{0}")));
+        out.steps = 0;
+        out.nontrivial = true;
+        let refs: Vec<&str> = texts.iter().map(|s| s.as_str()).collect();
+        out.class = verdict_both(&refs, &mut out, "cycles-with-users", &|| texts.join("\n--- next file ---\n"));
+        out
+    }
+    fn crash_sig(&self, _idx: u64, how: &str) -> String {
+        format!("c01/cycles-with-users/{how}")
+    }
+}
+impl CyclesWithUsers {
+    fn texts(idx: u64) -> Vec<String> {
+        let d = decode_index(idx, &[2, CW_KINDS.len() as u64, CW_KINDS.len() as u64, CW_DECOR.len() as u64, CW_USERS.len() as u64, 2]);
+        let (two_nodes, k0, k1, decor, user, two_files) = (d[0] == 1, d[1] as usize, d[2] as usize, d[3] as usize, d[4] as usize, d[5] == 1);
+        let def = |kind: &str, name: &str, target: &str| -> String {
+            let m = CW_DECOR[decor].replace("{T}", target);
+            if kind.ends_with("enum") {
+                format!("{kind} {name} {{ V({m}) W }}")
+            } else {
+                format!("{kind} {name} {{ {m} }}")
+            }
+        };
+        let mut first = String::from("module G\n");
+        let mut second = String::from("module G\n");
+        if two_nodes {
+            first.push_str(&def(CW_KINDS[k0], "N0", "N1"));
+            first.push('\n');
+            second.push_str(&def(CW_KINDS[k1], "N1", "N0"));
+            second.push('\n');
+        } else {
+            first.push_str(&def(CW_KINDS[k0], "N0", "N0"));
+            first.push('\n');
+            // (k1 then varies the kind of a bystander that merely contains N0)
+            second.push_str(&format!("{} B {{ {} }}\n", CW_KINDS[k1], if CW_KINDS[k1].ends_with("enum") { "V(b: N0) W".to_string() } else { "b: N0".to_string() }));
+        }
+        second.push_str(CW_USERS[user]);
+        second.push('\n');
+        if two_files {
+            vec![first, second]
+        } else {
+            vec![format!("{first}{}", second.strip_prefix("module G\n").unwrap())]
+        }
+    }
+}
+
 // ---------------------------------------------------------------------------------------------------------------
 // Every kind of white space (and a few look-alikes) at every position of texts that exercise all three lexers
 
@@ -1214,6 +1290,7 @@ pub fn families(tier: &str) -> Vec<Box<dyn Family>> {
         Box::new(BinaryOptions::new(if quick { 2 } else { 6 })),
         Box::new(FileArrangements),
         Box::new(GrowthThroughBinary),
+        Box::new(CyclesWithUsers),
         Box::new(TokenSoups::new(if quick { 2 } else { 3 }, 0..10)),
         Box::new(TokenMutations::new()),
         Box::new(CharMutations::new(false)),
